@@ -42,6 +42,9 @@ type Case struct {
 	Export2  bool         `json:"export2,omitempty"` // export/import the same side once more after the second phase (unmodified bytes), then a third phase
 	Close    bool         `json:"close,omitempty"`
 	Dual     string       `json:"dual,omitempty"` // "C"/"S": that side is dual-stack (1.2-1.3), the peer speaks only the version of Suite
+	// Move (connection IDs both ways): during the first write phase the client's datagrams arrive from another
+	// address, so the server's path-validation messages (RRC) are numbered concurrently with its writers
+	Move bool `json:"move,omitempty"`
 }
 
 func epsFor(c *Case) (cl, sv scen.EP) {
@@ -131,6 +134,17 @@ func run(c Case, r *pbt.R) {
 					}(w)
 				}
 			}
+			moving := c.Move && tag == 1 && c.CIDC > 0 && c.CIDS > 0
+			if moving {
+				p.Net.Redirect["B"] = "C"
+				p.Net.SrcRewrite = func(ev *vnet.Event) string {
+					if ev.From == "C" {
+						return "B"
+					}
+
+					return ""
+				}
+			}
 			launch(p.C, c.WritersC)
 			launch(p.S, c.WritersS)
 			for a := 0; a < c.Alerts; a++ {
@@ -154,6 +168,19 @@ func run(c Case, r *pbt.R) {
 			}
 			wg.Wait()
 			scen.Settle()
+			if moving {
+				time.Sleep(3 * time.Second) // path-challenge retransmissions
+				scen.Settle()
+				p.Net.SrcRewrite = nil
+				for _, ev := range p.Net.Events() {
+					if ev.From == "S" && ev.To == "B" {
+						r.Class("server-sent-to-the-new-address")
+
+						break
+					}
+				}
+				r.Class("client-address-moved")
+			}
 		}
 		phase(1)
 		exported := false
@@ -407,6 +434,9 @@ func gen(t *rapid.T) Case {
 	}
 	c.Close = rapid.Bool().Draw(t, "close")
 	c.Dual = rapid.SampledFrom([]string{"", "", "", "C", "C", "S"}).Draw(t, "dual")
+	if c.CIDC > 0 {
+		c.Move = rapid.IntRange(0, 2).Draw(t, "move") == 0
+	}
 
 	return c
 }
@@ -415,7 +445,7 @@ func init() {
 	pbt.Register(pbt.Prop[Case]{
 		Name: "sequence-numbers", Quick: 2500, Thorough: 60000, Gen: gen, Run: run, Crashy: true,
 		Rule: "session (suite x CID x MTU) with handshake retransmissions forced by a fault mask, 0..6 concurrent writer goroutines per side, provoked alerts, " +
-			"1.3 UpdateKeys from both sides, Close, and for 1.2 an export/import point between two write phases (optionally with the serialised counter rewritten to 2^48-j); " +
+			"1.3 UpdateKeys from both sides, a client address change during the writes (connection IDs: path-validation messages), Close, and for 1.2 an export/import point between two write phases (optionally with the serialised counter rewritten to 2^48-j); " +
 			"oracle: per sending endpoint and epoch the record sequence numbers on the wire (1.2: clear header; 1.3: recovered by the independent decoder with hook secrets) " +
 			"strictly increase in emission order, also across the import seam, and writes fail rather than pass 2^48-1. " +
 			"non-trivial = >=2 concurrent writers or a retransmitted protected handshake record or an import point or a key update; distinct = whole case",
